@@ -722,33 +722,14 @@ pub fn check_image(wk: &mut crate::corrupt::WorkerHandle, scratch: &Path, cfg: &
     wk.run_image(&dir, cfg)
 }
 
-#[derive(serde::Deserialize, Default)]
-struct ImgAnswer {
-    ans: Vec<String>,
-    leftover: Vec<String>,
-}
-
-/// `leftover_mode` (C20): only files left behind after recovery are violations; otherwise (C05) only content.
-pub fn run(tier: &str, threads: usize, max_wall_s: f64, leftover_mode: bool) -> CrashOutcome {
-    let start = std::time::Instant::now();
-    let root = crate::hx::scratch_root().join("crash");
-    crate::hx::fresh_dir(&root);
-    let mut machinery = vec![];
-    if !strace::strace_available() {
-        machinery.push("strace is not available".to_string());
-    }
-    let hs = crash_histories(tier);
-    let n_hist = hs.len();
+/// Traces one history and enumerates its crash images.
+fn prepare_history(h: CrashHistory, root: &Path, tier: &str) -> Result<(Vec<ImgJob>, u64, u64, u64, serde_json::Value), String> {
     let mut jobs: Vec<ImgJob> = vec![];
-    let (mut n_events, mut n_cuts, mut n_images, mut cap_hits) = (0u64, 0u64, 0u64, 0u64);
-    let mut samples = vec![];
-    for h in hs {
-        let (_, reopen) = match clean_run(&h.cfg, &h.ops, &root) {
+    let (mut n_cuts, mut n_images, mut cap_hits) = (0u64, 0u64, 0u64);
+    let _ = &mut n_images;
+        let (_, reopen) = match clean_run(&h.cfg, &h.ops, root) {
             Ok(x) => x,
-            Err(e) => {
-                machinery.push(e);
-                continue;
-            }
+            Err(e) => return Err(e),
         };
         let sc = root.join("trace");
         crate::hx::fresh_dir(&sc);
@@ -769,23 +750,14 @@ pub fn run(tier: &str, threads: usize, max_wall_s: f64, leftover_mode: bool) -> 
         let exe = std::env::current_exe().unwrap();
         let recs = match strace::run_traced(&sc.join("trace.txt"), None, 16 * 1024 * 1024, &exe, &["fs-subject", jp.to_str().unwrap()]) {
             Ok((_, out, recs)) if out.contains("REPORT ") => recs,
-            Ok(_) => {
-                machinery.push(format!("traced run of {} gave no report", h.name));
-                continue;
-            }
-            Err(e) => {
-                machinery.push(format!("strace failed: {e}"));
-                continue;
-            }
+            Ok(_) => return Err(format!("traced run of {} gave no report", h.name)),
+            Err(e) => return Err(format!("strace failed: {e}")),
         };
         let evs = match events_from_trace(&recs, &job.dir, &job.marks) {
             Ok(e) => e,
-            Err(e) => {
-                machinery.push(format!("{}: {e}", h.name));
-                continue;
-            }
+            Err(e) => return Err(format!("{}: {e}", h.name)),
         };
-        n_events += evs.len() as u64;
+        let n_events = evs.len() as u64;
         // self-check: replaying all events must reproduce the real directory
         {
             let mut sim = Sim::new(&job.dir, FsModel::Posix);
@@ -817,8 +789,7 @@ pub fn run(tier: &str, threads: usize, max_wall_s: f64, leftover_mode: bool) -> 
                 same && on_disk.iter().all(|f| img.contains_key(f))
             };
             if !ok {
-                machinery.push(format!("{}: the event log does not reproduce the directory the subject left behind (fs model out of sync with the trace)", h.name));
-                continue;
+                return Err(format!("{}: the event log does not reproduce the directory the subject left behind (fs model out of sync with the trace)", h.name));
             }
         }
         let h = Arc::new(h);
@@ -867,13 +838,37 @@ pub fn run(tier: &str, threads: usize, max_wall_s: f64, leftover_mode: bool) -> 
                 }
             }
         }
-        if samples.len() < 4 {
-            samples.push(serde_json::json!({"history": h.name, "ops": crate::ops::short_hist(&h.ops), "fs_events": evs.len()}));
-        }
-    }
+        let sample = serde_json::json!({"history": h.name, "ops": crate::ops::short_hist(&h.ops), "fs_events": evs.len()});
+    
+        Ok((jobs, n_events, n_cuts, cap_hits, sample))
+}
 
-    let jobs = Arc::new(jobs);
-    let next = Arc::new(AtomicU64::new(0));
+#[derive(serde::Deserialize, Default)]
+struct ImgAnswer {
+    ans: Vec<String>,
+    leftover: Vec<String>,
+}
+
+/// `leftover_mode` (C20): only files left behind after recovery are violations; otherwise (C05) only content.
+pub fn run(tier: &str, threads: usize, max_wall_s: f64, leftover_mode: bool) -> CrashOutcome {
+    let start = std::time::Instant::now();
+    let root = crate::hx::scratch_root().join("crash");
+    crate::hx::fresh_dir(&root);
+    let mut machinery = vec![];
+    if !strace::strace_available() {
+        machinery.push("strace is not available".to_string());
+    }
+    let hs = crash_histories(tier);
+    let n_hist = hs.len();
+    let hs: Arc<Mutex<Vec<CrashHistory>>> = Arc::new(Mutex::new(hs.into_iter().rev().collect()));
+    let queue: Arc<Mutex<Vec<ImgJob>>> = Arc::new(Mutex::new(vec![]));
+    let producers = Arc::new(AtomicU64::new(0));
+    let n_events = Arc::new(AtomicU64::new(0));
+    let n_cuts = Arc::new(AtomicU64::new(0));
+    let n_images = Arc::new(AtomicU64::new(0));
+    let cap_hits = Arc::new(AtomicU64::new(0));
+    let hist_done = Arc::new(AtomicU64::new(0));
+    let samples: Arc<Mutex<Vec<serde_json::Value>>> = Arc::new(Mutex::new(vec![]));
     let checked = Arc::new(AtomicU64::new(0));
     let ok_before = Arc::new(AtomicU64::new(0));
     let ok_after = Arc::new(AtomicU64::new(0));
@@ -883,24 +878,66 @@ pub fn run(tier: &str, threads: usize, max_wall_s: f64, leftover_mode: bool) -> 
     let per_model: Arc<Mutex<BTreeMap<String, u64>>> = Arc::new(Mutex::new(BTreeMap::new()));
     let mut handles = vec![];
     for w in 0..threads {
-        let (jobs, next, checked, ok_before, ok_after, found, mach, capped, per_model) =
-            (jobs.clone(), next.clone(), checked.clone(), ok_before.clone(), ok_after.clone(), found.clone(), mach.clone(), capped.clone(), per_model.clone());
+        let (checked, ok_before, ok_after, found, mach, capped, per_model) =
+            (checked.clone(), ok_before.clone(), ok_after.clone(), found.clone(), mach.clone(), capped.clone(), per_model.clone());
+        let (hs, queue, producers, n_events, n_cuts, n_images, cap_hits, hist_done, samples) =
+            (hs.clone(), queue.clone(), producers.clone(), n_events.clone(), n_cuts.clone(), n_images.clone(), cap_hits.clone(), hist_done.clone(), samples.clone());
+        let tier = tier.to_string();
         let scratch = root.join(format!("w{w}"));
         handles.push(std::thread::spawn(move || {
             crate::hx::fresh_dir(&scratch);
             let mut wk = crate::corrupt::WorkerHandle::spawn();
             loop {
-                let i = next.fetch_add(1, Ordering::Relaxed) as usize;
-                if i >= jobs.len() {
-                    break;
-                }
                 if start.elapsed().as_secs_f64() > max_wall_s {
-                    capped.store(true, Ordering::Relaxed);
+                    if !queue.lock().unwrap().is_empty() || !hs.lock().unwrap().is_empty() {
+                        capped.store(true, Ordering::Relaxed);
+                    }
                     break;
                 }
-                let n = jobs.len();
-                let stride = [7919usize, 104_729, 1_299_709].into_iter().find(|p| n % p != 0).unwrap_or(1);
-                let j = &jobs[(i * stride) % n];
+                // images first (keeps the queue short), then the next history
+                let job = queue.lock().unwrap().pop();
+                let j = match job {
+                    Some(j) => j,
+                    None => {
+                        let h = {
+                            let mut g = hs.lock().unwrap();
+                            let h = g.pop();
+                            if h.is_some() {
+                                producers.fetch_add(1, Ordering::SeqCst);
+                            }
+                            h
+                        };
+                        match h {
+                            Some(h) => {
+                                match prepare_history(h, &scratch.join("prep"), &tier) {
+                                    Ok((jobs, ev, cuts, caps, sample)) => {
+                                        n_events.fetch_add(ev, Ordering::Relaxed);
+                                        n_cuts.fetch_add(cuts, Ordering::Relaxed);
+                                        n_images.fetch_add(jobs.len() as u64, Ordering::Relaxed);
+                                        cap_hits.fetch_add(caps, Ordering::Relaxed);
+                                        hist_done.fetch_add(1, Ordering::Relaxed);
+                                        let mut sm = samples.lock().unwrap();
+                                        if sm.len() < 4 {
+                                            sm.push(sample);
+                                        }
+                                        queue.lock().unwrap().extend(jobs);
+                                    }
+                                    Err(e) => mach.lock().unwrap().push(e),
+                                }
+                                producers.fetch_sub(1, Ordering::SeqCst);
+                                continue;
+                            }
+                            None => {
+                                if producers.load(Ordering::SeqCst) == 0 && queue.lock().unwrap().is_empty() {
+                                    break;
+                                }
+                                std::thread::sleep(std::time::Duration::from_millis(2));
+                                continue;
+                            }
+                        }
+                    }
+                };
+                let j = &j;
                 let r = check_image(&mut wk, &scratch, &j.h.cfg, &j.img);
                 checked.fetch_add(1, Ordering::Relaxed);
                 let model_s = if j.model == FsModel::Posix { "posix" } else { "linux" };
@@ -986,19 +1023,20 @@ pub fn run(tier: &str, threads: usize, max_wall_s: f64, leftover_mode: bool) -> 
     let found = found.lock().unwrap().clone();
     let machinery = mach.lock().unwrap().clone();
     let per_model = per_model.lock().unwrap().clone();
+    let samples_v = samples.lock().unwrap().clone();
     CrashOutcome {
         histories: n_hist,
-        events: n_events,
-        cuts: n_cuts,
-        images: n_images,
+        events: n_events.load(Ordering::Relaxed),
+        cuts: n_cuts.load(Ordering::Relaxed),
+        images: n_images.load(Ordering::Relaxed),
         images_checked: checked.load(Ordering::Relaxed),
-        cap_hits,
+        cap_hits: cap_hits.load(Ordering::Relaxed),
         ok_before: ok_before.load(Ordering::Relaxed),
         ok_after: ok_after.load(Ordering::Relaxed),
         found,
         machinery,
         capped: capped.load(Ordering::Relaxed),
-        samples,
+        samples: samples_v,
         wall_s: start.elapsed().as_secs_f64(),
         per_model,
     }
